@@ -222,7 +222,7 @@ def run_shard(d):
     except core.HarnessError:
         raise
     except Exception as e:
-        py4hw.Wire.prepared = []
+        core.reset_prepared()
         return {'constructor_rejected': 1, 'configs': 1, 'vacuous_ok': True, 'distinct_outcomes': 0,
                 'samples': [{'config': d, 'rejected': repr(e)[:200]}], 'violations': []}
     ctxs = []
